@@ -115,3 +115,48 @@ def vertex_ids(cycles):
 
 def same_path(a, b):
     return list(a) == list(b) or list(a) == list(b)[::-1]
+
+
+def variant(name, k, seed):
+    """the same physical tissue under another labelling / storage: vertex ids and cell ids permuted to other
+    (non-contiguous) numbers, every cycle started at another vertex, some cells stored in the opposite sense, cells
+    inserted in another construction order.  `info` is mapped along, so expectations stay phrased over physical objects."""
+    import random
+    rnd = random.Random(seed)
+    cycles, info = SHAPES[name](k)
+    vids = vertex_ids(cycles)
+    new_v = rnd.sample(range(100, 100 + 7 * len(vids)), len(vids))
+    vm = dict(zip(vids, new_v))
+    cids = list(cycles)
+    new_c = rnd.sample(range(1, 60), len(cids))
+    cm = dict(zip(cids, new_c))
+    order = cids[:]
+    rnd.shuffle(order)
+    out = {}
+    for c in order:
+        cyc = [vm[v] for v in cycles[c]]
+        s = rnd.randrange(len(cyc))
+        cyc = cyc[s:] + cyc[:s]
+        if rnd.random() < 0.5:
+            cyc = cyc[::-1]
+        out[cm[c]] = cyc
+    mp = lambda p: [vm[v] for v in p]
+    info2 = dict(info)
+    info2["junction_rows"] = [vm[v] for v in info["junction_rows"]]
+    info2["internal"] = [mp(p) for p in info["internal"]]
+    info2["external"] = [mp(p) for p in info["external"]]
+    info2["three_cell_vertices"] = [vm[v] for v in info["three_cell_vertices"]]
+    info2["cells_of"] = {tuple(mp(p)): tuple(cm[c] for c in cs) for p, cs in info["cells_of"].items()}
+    if "isolated_cells" in info:
+        info2["isolated_cells"] = [cm[c] for c in info["isolated_cells"]]
+    return out, info2
+
+
+def register_variants(seeds=(1, 2, 3)):
+    for name in list(SHAPES):
+        for s in seeds:
+            SHAPES[f"{name}~v{s}"] = (lambda n, sd: (lambda k=1: variant(n, k, sd)))(name, s)
+
+
+BASE_SHAPES = list(SHAPES)
+register_variants()
